@@ -300,3 +300,19 @@ package proj
 //@   ensures [out_of_range] (err != nil) <==> (gcLat(Latitude@0) < -(math.Pi / 2) || gcLat(Latitude@0) > math.Pi / 2)
 //@   ensures [xyz] err == nil ==> X == (gcRn(this.a, this.es, gcLat(Latitude@0)) + Height) * cos(gcLat(Latitude@0)) * cos(gcLon(Longitude@0)) && Y == (gcRn(this.a, this.es, gcLat(Latitude@0)) + Height) * cos(gcLat(Latitude@0)) * sin(gcLon(Longitude@0)) && Z == (gcRn(this.a, this.es, gcLat(Latitude@0)) * (1 - this.es) + Height) * sin(gcLat(Latitude@0))
 //@   modifies nothing
+
+//@ -- derived ellipsoid constants as in proj4js lib/deriveConstants.js (relations among the final fields)
+//@ func (json *SR) DeriveConstants
+//@   prop C09
+//@   mode real
+//@   opt noframe=SR,datum,float64
+//@   requires [sr] json != nil
+//@   requires [towgs84_has_0_3_or_7_values] (len(json.DatumParams) == 0 || len(json.DatumParams) == 3 || len(json.DatumParams) == 7) && (forall k string :: mapHas(datumDefs, k) ==> len(datumDefs[k].towgs84) == 0 || len(datumDefs[k].towgs84) == 3 || len(datumDefs[k].towgs84) == 7)
+//@   ensures [squares] json.A2 == json.A * json.A && json.B2 == json.B * json.B
+//@   ensures [eccentricity] !json.Ra ==> json.Es == (json.A2 - json.B2) / json.A2 && json.E == sqrt(json.Es)
+//@   ensures [second_eccentricity] json.Ep2 == (json.A2 - json.B2) / json.B2
+//@   ensures [authalic_radius] json.Ra ==> json.Es == 0
+//@   ensures [sphere_means_equal_axes] json.sphere && !old(json.sphere) ==> json.B == json.A || json.Ra
+//@   ensures [datum_attached] json.datum != nil
+//@   loop 1 `for i, p := range datumDef.towgs84`
+//@     invariant #1 <= len(datumDef.towgs84) && len(json.DatumParams) == len(datumDef.towgs84) && fresh(json.DatumParams) && json != nil
